@@ -91,6 +91,33 @@ CLAIMS = {
             "actually took place, as it does for random adversarial conversations. Being reference-free it does not alarm on protocol changes that keep C11.",
             "Trusted: TLC, the log-only definition of 'reply allowed at this point'.",
             "DESIGN.md section 5 C11", TECH_MGV),
+    "C15": ("model_checking",
+            "Stream.tla states the read-a-frame / write-a-frame contract under an adversarial I/O schedule; TLC checks it for every schedule of the "
+            "bounded model. Frame::read and Frame::write are run on instrumented Read/Write objects that hand out as many bytes as asked (up to a "
+            "fragment limit), under exhaustively enumerated schedules on short streams (interrupt placements, a hard error at every call, sinks "
+            "accepting k bytes / nothing) and random schedules on long streams; TLC validates every I/O call and result against the contract.",
+            "Trusted: TLC, the instrumented streams. The model's reader asks for one byte per call; the recorded reader may ask for anything.",
+            "DESIGN.md section 5 C15", TECH_MGV),
+    "C16": ("model_checking",
+            "Serial.tla defines what one process_message call does at the port (PM). TLC checks one-frame-out, read-iff-due, one-line-in and "
+            "never-invented over every message kind x reply tape; SerialSignBus over an instrumented SerialPort is exercised with all kinds, "
+            "parameters across their ranges, 39 reply tapes (two lines each) and a failure at each port operation, and every port call is validated by TLC.",
+            "Trusted: TLC, the instrumented port (an empty receive side times out).",
+            "DESIGN.md section 5 C16", TECH_MGV),
+    "C18": ("other",
+            "Decided by measurement against a timed TLA+ trace specification (Trace_Pacing): monotonic time stamps at the port's write/read boundaries; "
+            "the two lower bounds (30 ms after a data chunk before the next write; 100 ms after an in-progress report before returning, also when the "
+            "report arrives late) are required on every paced exchange, and for every other message / reply kind the minimum over repeated trials must "
+            "be below the pacing delay. The placement rule itself is checked on the model with a logical clock (MC_Serial!Pacing).",
+            "Trusted: std::time::Instant, thread::sleep never returning early. Real-time measurement: noise can only make unpaced minima larger, never "
+            "violate a lower bound, and minima over >= 4 trials are compared with 30/100 ms.",
+            "DESIGN.md section 5 C18", "timed TLA+ trace specification validated by TLC over time-stamped port events recorded from the real SerialSignBus; placement rule model-checked"),
+    "C20": ("model_checking",
+            "PortSetup in Serial.tla; TLC checks it over all 936 prior settings x 5 failure points; configure_port, SerialSignBus::try_new and "
+            "Odk::try_new are run on that product over an instrumented SerialDevice with its own Settings type, and TLC checks the recorded final "
+            "device state and error propagation (effects, not call order).",
+            "Trusted: TLC, the instrumented device.",
+            "DESIGN.md section 5 C20", TECH_MGV),
     "C19": ("model_checking",
             "SignType.tla holds the documented table and the field relations; TLC checks the table's self-consistency, decode-back, the virtual sign's "
             "derivation and the totality/acceptance rules of decoding over all (family, id) pairs and lengths 0..40. The real blocks, dimensions, "
